@@ -27,7 +27,8 @@ NEG = [('dyad_after_bounds_q', ['Inv_X04_Counted', 'Inv_X04_SplitIndependent', '
        ('unaligned_q', ['Inv_X04_Counted', 'Inv_X04_SplitIndependent', 'Inv_X04_Conserved']),
        ('mut_swap_um_q', ['Inv_X04_Counted']),
        ('mut_prune_le_q', ['Inv_X04_SplitIndependent', 'Inv_X04_JobPrune', 'Inv_X04_PostOp']),
-       ('impl_q', None)]
+       ('impl_q', ['Inv_X04_Counted', 'Inv_X04_SplitIndependent', 'Inv_X04_Conserved']),
+       ('impl_asfound_q', ['Inv_X04_SitesCoverCells', 'Inv_X04_PostOp', 'Inv_X04_NoCrash'])]
 GEN = [('gen_count', 500, 6000), ('gen_prune', 300, 4000), ('gen_post', 600, 8000), ('gen_post2', 300, 4000)]   # (cfg, quick sample, thorough sample)
 
 
